@@ -1,17 +1,49 @@
 # Texts for MANIFEST.json (per claimed property) and the not-yet-claimed list.
 ENGINES = [
     dict(name="jsonrt", path="harness/jsonrt", serves_properties=["C07"], kind_free_text="rapid generators + reference transform for EEBUS JSON"),
+    dict(name="shipsim", path="harness/shipsim", serves_properties=["C01", "C03", "C04", "C06", "C07", "C08", "C09", "C11", "C14"],
+         kind_free_text="two real ShipConnections + man-in-the-middle transport inside a testing/synctest bubble (virtual clock); rapid-generated scripts, JSON replay"),
 ]
 
+_PBT = "property-based testing (rapid): "
+_TB = ("trusted: the in-memory transport mirrors ws.WebsocketConnection towards the SHIP layer; events are atomic at handler granularity "
+       "(interleavings inside one handler are not enumerated); virtual clock of testing/synctest on go1.26.8")
+
 META = {
-    "C07": dict(
-        engine="jsonrt",
-        text=("Generated-input search (rapid) over JSON documents with a reference transform (shape), a round-trip oracle on an "
-              "order- and literal-preserving tree, and an end-to-end envelope check; exploration, no absence proof."),
-        design_ref="DESIGN.md 6/C07",
-        note="trusted: Go's encoding/json tokenizer used by the harness tree parser; duplicate member names not generated",
-        technique="property-based testing (rapid): round trip + reference-model shape oracle",
-    ),
+    "C01": dict(engine="shipsim", design_ref="DESIGN.md 6/C01", note=_TB,
+                text="Generated adversarial histories (messages, timeouts, user actions, faults) against two real endpoints; invariant over the ordered "
+                     "callback log that no trusted state, setup or payload occurs before local trust. Exploration: held on all generated histories.",
+                technique=_PBT + "generated event histories, invariant over the callback history"),
+    "C03": dict(engine="shipsim", design_ref="DESIGN.md 6/C03", note=_TB,
+                text="Generated schedules (delivery order, user approve/cancel position, timer expiries, close propagation) over two real endpoints "
+                     "in timely and arbitrary mode; agreement/completion oracle at stability. Liveness decided up to ten quiet virtual minutes.",
+                technique=_PBT + "generated schedules on a harness-owned clock, agreement oracle at quiescence"),
+    "C04": dict(engine="shipsim", design_ref="DESIGN.md 6/C04", note=_TB + "; edge table written from SHIP 1.0.1 13.4.3-13.4.6",
+                text="Generated histories incl. write failure at the k-th write; every reported transition is checked against an explicit "
+                     "specification edge table, phase order and finality clauses. Exploration.",
+                technique=_PBT + "reference-model (state graph) conformance over generated histories with fault injection"),
+    "C06": dict(engine="shipsim", design_ref="DESIGN.md 6/C06", note=_TB,
+                text="Generated arrival interleavings of SPINE data frames with the remaining handshake; reader log must equal the arrival sequence.",
+                technique=_PBT + "history invariant (exactly-once, ordered, after completion)"),
+    "C07": dict(engine="jsonrt", design_ref="DESIGN.md 6/C07",
+                note="trusted: Go's encoding/json tokenizer used by the harness tree parser; duplicate member names not generated",
+                text="Generated JSON documents with a reference transform (shape), a round-trip oracle on an order- and literal-preserving tree, "
+                     "and an end-to-end envelope check through two real endpoints; exploration, no absence proof.",
+                technique=_PBT + "round trip + reference-model shape oracle"),
+    "C08": dict(engine="shipsim", design_ref="DESIGN.md 6/C08", note=_TB + "; deadlocks are shown by two identical stack dumps of a blocked ship-go goroutine",
+                text="Structured mutations and arbitrary bytes delivered in every handshake state reachable by a valid prefix, both roles; "
+                     "no panic, no wedge. Exploration (ship level; websocket and mDNS inputs are separate runs of this check).",
+                technique=_PBT + "structure-aware mutation fuzzing of SHIP messages per reachable state; crash/wedge oracle"),
+    "C09": dict(engine="shipsim", design_ref="DESIGN.md 6/C09", note=_TB,
+                text="Generated (stored, presented) SHIP ID pairs and message orders in the access-methods phase; oracle on final state and "
+                     "order/count of ship-id report vs setup.",
+                technique=_PBT + "generated input pairs and orders, outcome oracle"),
+    "C11": dict(engine="shipsim", design_ref="DESIGN.md 6/C11", note=_TB,
+                text="Generated combinations and orders of close causes on two real endpoints; HandleConnectionClosed exactly once per connection.",
+                technique=_PBT + "generated close-cause histories, exactly-once invariant"),
+    "C14": dict(engine="shipsim", design_ref="DESIGN.md 6/C14", note=_TB + "; timer entry points through the verif hooks",
+                text="Model-based: arm/stop/advance sequences on the virtual clock against the reference model 'one live timer'.",
+                technique=_PBT + "model-based (reference timer model) on a virtual clock"),
 }
 
 _pending = "machinery for this property is not built yet (work in progress, see DESIGN.md section 6)"
